@@ -55,6 +55,15 @@ def check_line(case):
         raise Violation("wrong-opcode", f"{text!r} denotes {name} but prints as {printed!r}")
     if rec[1] != vals:
         raise Violation("wrong-immediates", f"{text!r} denotes {name} {vals} but prints as {printed!r} = {rec[1]}")
+    # the decoded immediates as the analyses see them (not only as they print)
+    if name in ("int", "pushint") and not isinstance(getattr(ins, "value", None), int) and (text.split()[1][:1].isdigit()):
+        raise Violation("numeric-immediate-kept-as-text", f"{text!r}: value is {getattr(ins, 'value', None)!r}, a number was written")
+    if name in ("int", "pushint") and isinstance(getattr(ins, "value", None), int) and ins.value != vals[0]:
+        raise Violation("wrong-immediates", f"{text!r}: value attribute {ins.value} != {vals[0]}")
+    if hasattr(ins, "field") and vals and isinstance(vals[-1 if name not in ("gtxna", "txna", "gtxnsa", "itxna", "gitxna") else -2], str):
+        fname = vals[-1 if name not in ("gtxna", "txna", "gtxnsa", "itxna", "gitxna") else -2]
+        if str(ins.field).split()[0] != fname:
+            raise Violation("wrong-field", f"{text!r}: field attribute {ins.field} != {fname}")
     try:
         ins2 = _parse_line(printed)
     except Exception as e:  # pylint: disable=broad-except
@@ -217,6 +226,9 @@ def _grid_cases():
                 elif k == "method":
                     toks.append('"a()void"')
                     vals.append("a()void")
+                elif k == "u8opt":
+                    toks.append("0")
+                    vals.append(0)
                 else:
                     raise AssertionError(k)
             out.append({"text": " ".join([name] + toks), "name": name, "vals": vals, "feats": ["grid"]})
@@ -244,7 +256,7 @@ def unknown_case(draw):
     else:
         name = draw(st.text(alphabet=lg.IDENT_CHARS[:52] + "_", min_size=2, max_size=10))
         prefix = any(name.startswith(o) for o in alpha_ops)
-    if name in rops.OPS or name in ("replace",) or name.endswith(":"):
+    if name in rops.OPS or name.endswith(":"):
         name = "zz_" + name
         prefix = False
     args = draw(st.lists(st.sampled_from(["1", "0x10", "Fee", "lbl", "07"]), max_size=3))
